@@ -2,8 +2,8 @@
    (positive / N / Z are extracted only because the shared ocaml/conv.ml glue mentions them.) *)
 Require Import ExtrOcamlBasic.
 Require Import BinNums.
-Require Import XV.GenCont XV.ContVecDefs XV.ContMapDefs XV.ContStrDefs XV.ContDeqDefs.
+Require Import XV.GenCont XV.ContVecDefs XV.ContMapDefs XV.ContStrDefs XV.ContDeqDefs XV.ContListDefs.
 Extraction "extracted/cont_model.ml"
   BinNums.positive BinNums.N BinNums.Z
   vrun vstep vinit cur_vec set_cur vsize insert_fill_alias mrun new_map mkms
-  strun stinit drun new_deq mkds set_run.
+  strun stinit drun new_deq mkds set_run grun ginit.
